@@ -83,6 +83,10 @@ def gen_cases(ctx):
                                      rng.randint(1, 7)),
                  reward=rng.choice(["makespan", "idle"]))
         yield c
+    if ctx.shard in (0, 1):
+        for feats in (["is_ready", "duration", "is_scheduled"], ["remaining_operations", "is_completed", "duration"]):
+            yield {"kind": "fresh_across_processes", "seed": rng.randrange(10**6), "instance": {"cls": "generated"},
+                   "features": feats, "hash_seeds": [0, 1, 2, 3, 5, 7]}
     for i in range(ctx.scale(30, 4800)):
         yield {"kind": "multi_env", "seed": rng.randrange(10**6), "instance": {"cls": "generated"},
                "features": rng.sample(["is_ready", "duration", "is_scheduled", "is_completed",
@@ -450,6 +454,50 @@ def _to_dict(t):
     return t
 
 
+_FRESH_ENV_SCRIPT = """
+import json, sys, hashlib
+import numpy as np
+from job_shop_lib.dispatching import DispatcherObserverConfig
+from job_shop_lib.generation import GeneralInstanceGenerator
+from job_shop_lib.reinforcement_learning import MultiJobShopGraphEnv
+feats, seed = json.loads(sys.argv[1]), int(sys.argv[2])
+g = GeneralInstanceGenerator(num_jobs=(2, 4), num_machines=(2, 3), duration_range=(1, 9), seed=seed)
+env = MultiJobShopGraphEnv(g, [DispatcherObserverConfig(t) for t in feats])
+obs, info = env.reset()
+out = {k: [list(np.asarray(v).shape), hashlib.sha1(np.ascontiguousarray(v).tobytes()).hexdigest()]
+       for k, v in sorted(obs.items())}
+out["feature_names"] = {str(k): list(v) for k, v in sorted(info.get("feature_names", {}).items(), key=str)}
+print(json.dumps(out, sort_keys=True))
+"""
+
+
+def run_fresh_across_processes(ctx, case):
+    """Freshly constructed environments are identical - also when they are constructed in another
+    process (under another hash seed): same generator seed, same configurations, same first
+    observation and feature columns."""
+    import json
+    import os
+    import subprocess
+    import sys
+    outs = {}
+    for hs in case["hash_seeds"]:
+        pr = subprocess.run([sys.executable, "-c", _FRESH_ENV_SCRIPT, json.dumps(case["features"]),
+                             str(case["seed"] % 100000)], capture_output=True, text=True,
+                            env=dict(os.environ, PYTHONHASHSEED=str(hs)), timeout=600)
+        if pr.returncode != 0:
+            ctx.violation("c12_fresh_env_failed_in_another_process", {"PYTHONHASHSEED": hs, "error": pr.stderr[-300:]})
+            return
+        outs[hs] = pr.stdout.strip()
+    ctx.count("fresh_envs_compared_across_processes", len(outs))
+    first = case["hash_seeds"][0]
+    other = [hs for hs in outs if outs[hs] != outs[first]]
+    if other:
+        ctx.violation("c12_fresh_envs_differ_between_processes",
+                      {"features": case["features"], "PYTHONHASHSEED": [first, other[0]],
+                       "first": outs[first][:400], "other": outs[other[0]][:400]})
+    ctx.note_case(case, True, fingerprint="fresh-across:%s" % case["seed"])
+
+
 def run_multi_env(ctx, case):
     from job_shop_lib.dispatching import DispatcherObserverConfig
     from job_shop_lib.generation import GeneralInstanceGenerator
@@ -484,26 +532,7 @@ def run_multi_env(ctx, case):
                                                 "non_immediate_operations"]))
         ctx.count("multi_env_reconfigured_through_the_filter_setter")
     X = build()
-    obs0, _ = X.reset()
-    if len(case["features"]) >= 2:
-        # the multi env's episode is that of a single env constructed by hand for the same instance
-        # with the same configurations, in the same order (same feature columns)
-        from job_shop_lib.graphs import build_agent_task_graph
-        from job_shop_lib.reinforcement_learning import SingleJobShopGraphEnv
-        Z = SingleJobShopGraphEnv(build_agent_task_graph(X.instance),
-                                  [DispatcherObserverConfig(t) for t in case["features"]])
-        obsz, _ = Z.reset()
-        ctx.count("multi_env_first_observation_compared_with_a_hand_built_single_env")
-        for key in ("operations", "jobs", "machines"):
-            a, b = obs0.get(key), obsz.get(key)
-            if a is None or b is None:
-                continue
-            n, k = b.shape
-            if a.shape[1] != k or not (a[:n, :] == b).all():
-                ctx.violation("c12_multi_env_observation_differs_from_single_env_on_the_same_instance",
-                              {"key": key, "features": case["features"], "multi": a[:n, :].tolist()[:4],
-                               "single": b.tolist()[:4]})
-                return
+    X.reset()
     play(X, random.Random(1))
     if new_filter is not None:
         X.ready_operations_filter = new_filter
@@ -529,4 +558,4 @@ def run_multi_env(ctx, case):
 
 def run_case(ctx, case):
     {"twin": run_twin, "env": run_env, "multi_env": run_multi_env,
-     "sparse": run_sparse}[case["kind"]](ctx, case)
+     "sparse": run_sparse, "fresh_across_processes": run_fresh_across_processes}[case["kind"]](ctx, case)
